@@ -74,6 +74,8 @@ pub enum Step {
     Flush,
     Vacuum,
     Reopen(u8),
+    /// n cheap autocommit reads: consumes n transaction ids (id-dependent bookkeeping: bitmaps, wrap-arounds)
+    Burn(u16),
 }
 
 impl AStmt {
@@ -728,6 +730,13 @@ pub struct Interp {
     pub tolerate_ww_conflict: bool,
     /// run VACUUM even while sessions are open (it aborts them, by contract)
     pub vacuum_aborts_sessions: bool,
+    /// crash histories: checkpoint even while a session has uncommitted writes (the caller then skips the crash
+    /// points that the open finding about such checkpoints makes incomparable)
+    pub allow_flush_with_open_writer: bool,
+    /// transaction ids consumed by Burn steps
+    pub burned: u32,
+    /// sessions in which a statement failed after writing rows: not asserted any more, rolled back at their end
+    pub doomed: BTreeSet<u8>,
 }
 
 pub fn err_is_unknown_object(text: &str) -> bool {
@@ -769,6 +778,9 @@ impl Interp {
             saw_concurrent_same_row_write: false,
             tolerate_ww_conflict: false,
             vacuum_aborts_sessions: false,
+            allow_flush_with_open_writer: false,
+            burned: 0,
+            doomed: BTreeSet::new(),
         })
     }
 
@@ -980,6 +992,10 @@ impl Interp {
         }
     }
 
+    pub fn check_now(&mut self, at: &str) -> Option<Failure> {
+        self.full_check(at)
+    }
+
     fn full_check(&mut self, at: &str) -> Option<Failure> {
         // Vary the number of transaction ids consumed between steps (the fixed three reads below would
         // otherwise pin every session's id to one residue class): a few extra reads, a pure function of the history length.
@@ -1023,7 +1039,7 @@ impl Interp {
     pub fn step(&mut self, i: usize, st: &Step) -> Option<Failure> {
         if self.sequential && !self.txns.is_empty() {
             match st {
-                Step::Auto(_) | Step::Batch(_) | Step::Flush => return None,
+                Step::Auto(_) | Step::Batch(_) => return None,
                 Step::Begin(_) => return None,
                 Step::Exec(s, _) | Step::Commit(s) | Step::Rollback(s) | Step::DropSession(s) if !self.txns.contains_key(s) => return None,
                 _ => {}
@@ -1031,7 +1047,7 @@ impl Interp {
         }
         self.last_step_kind = match st {
             Step::Rollback(_) | Step::DropSession(_) => "noncommit_end",
-            Step::Flush | Step::Vacuum | Step::Reopen(_) => "admin",
+            Step::Flush | Step::Vacuum | Step::Reopen(_) | Step::Burn(_) => "admin",
             _ => "commit_path",
         };
         match st {
@@ -1206,6 +1222,51 @@ impl Interp {
                     }
                 }
                 let sql = stmt_sql(&stmt, &txn.view);
+                if self.doomed.contains(s) {
+                    // the session ran a statement that failed half-way (see below): what it sees from here on is
+                    // not asserted, it only has to vanish when the session ends
+                    return None;
+                }
+                {
+                    // A statement that fails after it wrote some rows inside a session keeps them visible to the
+                    // session (open finding, tag stmt.fails_midway_in_txn). Instead of skipping such statements the
+                    // session is doomed: the statement runs, nothing more is asserted inside the session, a COMMIT
+                    // is turned into a ROLLBACK, and after that the partial rows must be gone.
+                    let doom_tag = "stmt.fails_midway_in_txn".to_string();
+                    let others: Vec<String> = tags.iter().filter(|t| **t != doom_tag).cloned().collect();
+                    // the session must be allowed to roll back later: none of the non-commit kinds it would carry
+                    // (its own effects so far plus the partial insert) may be excluded by another finding
+                    let mut end_tags: Vec<&str> = vec!["txn.rollback", "txn.drop_session", "txn.noncommit_after_insert"];
+                    for e in &txn.effects {
+                        end_tags.push(match e {
+                            Effect::Insert { .. } => "txn.noncommit_after_insert",
+                            Effect::Update { .. } => "txn.noncommit_after_update",
+                            Effect::Delete { .. } => "txn.noncommit_after_delete",
+                            Effect::Create(_) => "txn.noncommit_after_create",
+                            Effect::Drop(_) => "txn.noncommit_after_drop",
+                            Effect::AddUnique { .. } => "txn.noncommit_after_create_index",
+                            Effect::AddColumn { .. } | Effect::DropColumn { .. } => "txn.noncommit_after_alter",
+                        });
+                    }
+                    let may_roll_back = !end_tags.iter().any(|t| self.excluded.contains_key(*t)) && matches!(stmt, Stmt::Insert { .. });
+                    if may_roll_back && tags.contains(&doom_tag) && self.excluded.contains_key(&doom_tag) && !others.iter().any(|t| self.excluded.contains_key(t)) {
+                        self.trace(format!("[{i}] s{s}: {sql}   -- fails half-way; session {s} will be rolled back"));
+                        self.tags.extend(others);
+                        self.tags.insert("txn.doomed_after_partial_failure".into());
+                        let eng = self.db.sexec(*s, &sql);
+                        if let Err(dbx::Err::Panic(p)) = &eng {
+                            return Some(self.fail("panic", format!("`{sql}`: {p}")));
+                        }
+                        if eng.is_ok() {
+                            return Some(self.fail("statement_should_fail", format!("in transaction `{sql}`: the model expects a constraint error, engine returned {:?}", eng)));
+                        }
+                        let view_before = self.txns.get(s).map(|t| t.view.clone()).unwrap_or_default();
+                        self.poison_from_failed_stmt(&stmt, &view_before);
+                        self.pending_noncommit_write = true;
+                        self.doomed.insert(*s);
+                        return None;
+                    }
+                }
                 if self.skip_if_excluded(&tags) {
                     return None;
                 }
@@ -1279,6 +1340,9 @@ impl Interp {
                 }
                 None
             }
+            Step::Commit(s) if self.doomed.contains(s) => {
+                return self.step(i, &Step::Rollback(*s));
+            }
             Step::Commit(s) => {
                 let Some(txn) = self.txns.remove(s) else { return None };
                 self.sess_reads.remove(s);
@@ -1314,8 +1378,12 @@ impl Interp {
             }
             Step::Rollback(s) | Step::DropSession(s) => {
                 let Some(txn) = self.txns.remove(s) else { return None };
+                let was_doomed = self.doomed.remove(s);
                 let is_drop = matches!(st, Step::DropSession(_));
                 let mut tags = vec![if is_drop { "txn.drop_session".to_string() } else { "txn.rollback".to_string() }];
+                if was_doomed {
+                    tags.push("txn.noncommit_after_insert".to_string());
+                }
                 for e in &txn.effects {
                     tags.push(
                         match e {
@@ -1487,7 +1555,7 @@ impl Interp {
             }
             Step::Flush => {
                 if self.txns.values().any(|t| t.wrote) {
-                    if self.skip_if_excluded(&["admin.flush_with_open_writer".to_string()]) {
+                    if !self.allow_flush_with_open_writer && self.skip_if_excluded(&["admin.flush_with_open_writer".to_string()]) {
                         return None;
                     }
                     self.tags.insert("admin.flush_with_open_writer".into());
@@ -1498,6 +1566,29 @@ impl Interp {
                     Ok(()) => None,
                     Err(e) => Some(self.fail("flush_failed", e.text())),
                 }
+            }
+            Step::Burn(n) => {
+                if !self.txns.is_empty() {
+                    return None;
+                }
+                let Some(t) = self.model.committed.tables.keys().next().cloned() else { return None };
+                self.trace(format!("[{i}] {n} x SELECT on {t} (burning transaction ids)"));
+                self.tags.insert("admin.burn_ids".into());
+                self.burned += *n as u32;
+                if self.burned >= 8000 {
+                    // transactions that end without commit from here on have ids beyond the 8192 the persisted
+                    // aborted-transaction bitmap can hold
+                    self.tags.insert("ids.noncommit_beyond_8192".into());
+                }
+                let sql = format!("SELECT * FROM {t} WHERE 1 = 0");
+                for _ in 0..*n {
+                    match self.db.exec(&sql) {
+                        Ok(_) => {}
+                        Err(dbx::Err::Panic(p)) => return Some(self.fail("panic", format!("while burning ids: {p}"))),
+                        Err(e) => return Some(self.fail("spurious_error", format!("`{sql}`: {}", e.text()))),
+                    }
+                }
+                None
             }
             Step::Vacuum => {
                 if !self.txns.is_empty() && !self.vacuum_aborts_sessions {
